@@ -100,7 +100,8 @@ class C18(PoolCheck):
         epilogue['doc'] = rng.choice(pool)
         policy = dict(rng.choice(POLICIES))
         return {'entry': key, 'scenario': scenario, 'programs': programs, 'epilogue': epilogue,
-                'policy': policy, 'sseed': rng.randrange(1 << 30), 'knobs': histories.gen_knobs(rng)}
+                'policy': policy, 'sseed': rng.randrange(1 << 30), 'knobs': histories.gen_knobs(rng),
+                'lines': rng.random() < (0.25 if self.tier == 'quick' else 0.5)}
 
     # ------------------------------------------------------------------
     def run_case(self, case):
@@ -109,7 +110,8 @@ class C18(PoolCheck):
         scenario = case['scenario']
         schema = self.unbuilt[case['entry']] if scenario == 'racing_build' else e.schema
         histories.apply_knobs(schema, case.get('knobs'))
-        sched = simsched.Scheduler(random.Random(case['sseed']), case['policy'], replay=case.get('schedule'))
+        sched = simsched.Scheduler(random.Random(case['sseed']), case['policy'], replay=case.get('schedule'),
+                                   line_level=bool(case.get('lines')))
         simsched.install_locks(sched, [schema])
         env = self.new_env()
         counters = {}
@@ -212,6 +214,9 @@ class C18(PoolCheck):
         counters['switches'] = sched.switches
         counters['switches_with_2_threads_active'] = sched.concurrent_switches
         counters['policy_' + case['policy']['kind']] = 1
+        if case.get('lines'):
+            counters['line_level_runs'] = 1
+            counters['line_level_frames'] = sched.line_frames
         counters['scenario_' + scenario] = 1
         kn = case.get('knobs') or {}
         counters['knob_selectors_prefill_%s' % kn.get('selectors_prefill', 0)] = 1
